@@ -154,8 +154,9 @@ func (l *staticLeaf) Static() bool {
 // regexLeaf is a leaf with a regex match style.
 type regexLeaf struct {
 	baseLeaf
-	regexp *regexp.Regexp // The regexp for the leaf.
-	binds  []string       // The list of bind parameters.
+	regexp  *regexp.Regexp // The regexp for the leaf.
+	binds   []string       // The list of bind parameters.
+	indexes []int          // The sub-match indexes of bind parameters, nil when they are one-to-one.
 }
 
 func (*regexLeaf) getMatchStyle() MatchStyle {
@@ -173,7 +174,7 @@ func (l *regexLeaf) match(segment string, params Params, header http.Header) boo
 	}
 
 	for i, bind := range l.binds {
-		params[bind] = submatches[i+1]
+		params[bind] = submatches[submatchIndex(l.indexes, i)]
 	}
 	return true
 }
@@ -283,11 +284,23 @@ func checkMatchStyleAll(s *Segment) (bind string, capture int, ok bool) {
 	return bind, capture, true
 }
 
+// submatchIndex returns the sub-match index of the i-th bind parameter.
+func submatchIndex(indexes []int, i int) int {
+	if indexes == nil {
+		return i + 1
+	}
+	return indexes[i]
+}
+
 // constructMatchStyleRegex constructs a regexp from the Segment (having the
 // assumption that it's regex match style), along with bind parameter names in
-// the same order as regexp's sub-matches.
-func constructMatchStyleRegex(s *Segment) (*regexp.Regexp, []string, error) {
+// the same order as regexp's sub-matches. The returned indexes are sub-match
+// indexes of bind parameters, which is nil when bind parameters and sub-matches
+// are one-to-one, i.e. no bind parameter defines capturing groups on its own.
+func constructMatchStyleRegex(s *Segment) (*regexp.Regexp, []string, []int, error) {
 	binds := make([]string, 0, len(s.Elements))
+	indexes := make([]int, 0, len(s.Elements))
+	next := 1 // The sub-match index of the next bind parameter
 	buf := bytes.NewBufferString("^")
 	for _, e := range s.Elements {
 		if e.Ident != nil {
@@ -296,18 +309,29 @@ func constructMatchStyleRegex(s *Segment) (*regexp.Regexp, []string, error) {
 			continue
 		} else if e.BindIdent != nil {
 			binds = append(binds, *e.BindIdent)
+			indexes = append(indexes, next)
+			next++
 			buf.WriteString("(.+)")
 			continue
 		} else if e.BindParameters == nil || len(e.BindParameters.Parameters) == 0 {
-			return nil, nil, errors.Errorf("empty segment element in position %d", e.Pos.Offset)
+			return nil, nil, nil, errors.Errorf("empty segment element in position %d", e.Pos.Offset)
 		}
 
 		for _, p := range e.BindParameters.Parameters {
 			if p.Value.Regex == nil {
-				return nil, nil, errors.Errorf("segment has non-regex literal in position %d", e.Pos.Offset)
+				return nil, nil, nil, errors.Errorf("segment has non-regex literal in position %d", e.Pos.Offset)
+			}
+
+			// The bind parameter may define capturing groups on its own, which shift
+			// sub-match indexes of bind parameters after it.
+			re, err := regexp.Compile(*p.Value.Regex)
+			if err != nil {
+				return nil, nil, nil, errors.Wrapf(err, "compile regexp of bind parameter %q near position %d", p.Ident, s.Pos.Offset)
 			}
 
 			binds = append(binds, p.Ident)
+			indexes = append(indexes, next)
+			next += 1 + re.NumSubexp()
 			buf.WriteString("(")
 			buf.WriteString(*p.Value.Regex)
 			buf.WriteString(")")
@@ -317,9 +341,13 @@ func constructMatchStyleRegex(s *Segment) (*regexp.Regexp, []string, error) {
 
 	re, err := regexp.Compile(buf.String())
 	if err != nil {
-		return nil, nil, errors.Wrapf(err, "compile regexp near position %d", s.Pos.Offset)
+		return nil, nil, nil, errors.Wrapf(err, "compile regexp near position %d", s.Pos.Offset)
 	}
-	return re, binds, nil
+
+	if next == len(binds)+1 {
+		indexes = nil
+	}
+	return re, binds, indexes, nil
 }
 
 // getParentBindSet returns a set of all bind parameters defined in parent
@@ -387,7 +415,7 @@ func newLeaf(parent Tree, r *Route, s *Segment, h Handler) (Leaf, error) {
 	}
 
 	// The only remaining style is regex.
-	re, binds, err := constructMatchStyleRegex(s)
+	re, binds, indexes, err := constructMatchStyleRegex(s)
 	if err != nil {
 		return nil, err
 	}
@@ -405,7 +433,8 @@ func newLeaf(parent Tree, r *Route, s *Segment, h Handler) (Leaf, error) {
 			segment: s,
 			handler: h,
 		},
-		regexp: re,
-		binds:  binds,
+		regexp:  re,
+		binds:   binds,
+		indexes: indexes,
 	}, nil
 }
